@@ -492,7 +492,7 @@ func (b *batch) Close() error {
 }
 
 func (b *batch) GetByteSize() (int, error) {
-	if b.closed {
+	if b.closed || b.done { // contract: after Write only Close may be called, other methods error
 		return 0, errBatchClosed
 	}
 	return b.size, nil
